@@ -2,6 +2,7 @@ import RimeModel.C10.Model
 import RimeModel.C10.Lemmas
 import RimeModel.C10.Rank
 import RimeModel.C10.Examples
+import RimeModel.C10.Encoder
 /-!
 # C10 — what the user commits is learned, ranked no worse next time, can be forgotten
 
@@ -240,6 +241,136 @@ theorem rank_no_worse_table_list (Ub Ua : List UCand) (T : Key) (t : UCand) (Sx 
   have h := rank_core Ub Ua T t [] (Sx ++ Up.map UCand.toCand ++ Sp) (Sx' ++ Up'.map UCand.toCand ++ Sp')
     hsb hsa hnb hna hcodeb hcodea ht hk hkeep hgain (Or.inl rfl)
   simpa [tableList, List.append_assoc] using h
+
+/-- With the default `max_homographs` (1) the sentence-mode list for any `max_homographs` is the list the other theorems
+and the counterexample speak about: the table entries of a prefix are shown only when the user dictionary has none. -/
+theorem tableSentenceListH_one (sentence : Option Bytes) (prefixes : List (List UCand × List Cand)) :
+    tableSentenceListH 1 sentence prefixes = tableSentenceList sentence prefixes := by
+  unfold tableSentenceListH tableSentenceList
+  congr 1
+  induction prefixes with
+  | nil => rfl
+  | cons p ps ih =>
+    simp only [List.flatMap_cons, ih]
+    congr 1
+    cases h : p.1 with
+    | nil => simp
+    | cons x xs => simp
+
+/-- Whatever `max_homographs` is, sentence mode lists every visible user phrase of every prefix (a learned phrase is
+never displaced by the table entries of its prefix), and in front of that prefix's table entries. -/
+theorem sentence_mode_user_phrase_listed (mh : Nat) (sentence : Option Bytes) (prefixes : List (List UCand × List Cand))
+    (p : List UCand × List Cand) (hp : p ∈ prefixes) (u : UCand) (hu : u ∈ p.1) :
+    u.toCand ∈ tableSentenceListH mh sentence prefixes := by
+  unfold tableSentenceListH
+  refine List.mem_append_right _ ?_
+  refine List.mem_flatMap.mpr ⟨p, hp, ?_⟩
+  exact List.mem_append_left _ (List.mem_map.mpr ⟨u, hu, rfl⟩)
+
+/-! ### table translator with `enable_encoder` (`RimeModel/C10/Encoder.lean`) -/
+
+/-- `RemovePrefix` undoes `AddPrefix`: removing the encoder prefix from `prefix ++ s` gives `s`. -/
+theorem stripPrefix_append (p s : Bytes) : stripPrefix p (p ++ s) = some s := by
+  induction p with
+  | nil => rfl
+  | cons a as ih => simp [stripPrefix, ih]
+
+/-- Blessing leaves a plain entry alone: for the commits of a schema without constructed phrases, `Memorize` with the
+encoder updates the same keys as `Memorize` without. -/
+theorem bless_plain (k : Key) (h : k.constructed = false) : k.bless = k := by
+  unfold Key.constructed at h
+  unfold Key.bless
+  cases hc : k.code with
+  | nil => rfl
+  | cons c r =>
+    rw [hc] at h
+    cases hs : stripPrefix encPrefix c with
+    | none => simp [hs]
+    | some c' => simp [hs] at h
+
+/-- A constructed phrase that is committed is stored under its plain key: blessing the prefixed key of `k` gives `k` back,
+and the prefixed key is recognised as constructed. -/
+theorem bless_addPrefix (k : Key) (c : Bytes) (r : Code) (hc : k.code = c :: r) :
+    k.addPrefix.constructed = true ∧ k.addPrefix.bless = k := by
+  have e : k.addPrefix = { k with code := (encPrefix ++ c) :: r } := by unfold Key.addPrefix; rw [hc]
+  constructor
+  · rw [e]; simp [Key.constructed, stripPrefix_append]
+  · rw [e]
+    simp only [Key.bless, stripPrefix_append]
+    cases k
+    simp_all
+
+/-- **encoder: the elements of a commit are counted as without encoder.**  When no element of the commit entry is a
+constructed phrase and the encoder derives no code, `Memorize` with the encoder issues exactly the `UpdateEntry` calls of
+`Memorize` without (`memorizeTable`: +1 on every element), so `table_commit_plus_one` and `commit_frame` carry over. -/
+theorem memorizeTableEnc_plain (cfg : EncCfg) (oracle : Bytes → List Bytes) (hist : List (String × Bytes)) (c : CommitEntry)
+    (hp : ∀ e ∈ c.elements, e.key.constructed = false) (ho : ∀ p, oracle p = []) :
+    memorizeTableEnc cfg oracle hist c = (memorizeTable c).map (fun p => Upd.plain p.1 p.2) := by
+  unfold memorizeTableEnc memorizeTable
+  have h2 : ((encodeCalls cfg hist c).flatMap fun pc =>
+      (oracle pc.1).map fun code => Upd.enc { code := [code], text := pc.1 } (if pc.2 then 1 else 0)) = [] := by
+    apply List.flatMap_eq_nil_iff.mpr
+    intro pc _
+    rw [ho]; rfl
+  rw [h2, List.append_nil, List.map_map]
+  apply List.map_congr_left
+  intro e he
+  simp [bless_plain _ (hp e he)]
+
+/-- **encoder: frame.**  Inside the transaction of a commit, encoding a phrase — `UpdateEntry(entry, n, kEncodedPrefix)`
+— writes one record, under the plain key `k` of the phrase if that exists and under the prefixed key otherwise; every other
+key reads what it read before (no entry of another code or text is altered), and the durable db is left alone. -/
+theorem encoded_update_frame (ops : DeeOps D) (u : UD D) (k : Key) (n : Int) (h : u.inTxn = true) (k' : Key)
+    (h1 : k' ≠ k) (h2 : k' ≠ k.addPrefix) :
+    (u.updateEntryPrefixed ops k n).1.fetch k' = u.fetch k' ∧ (u.updateEntryPrefixed ops k n).1.durable = u.durable := by
+  unfold UD.updateEntryPrefixed
+  cases hf : u.fetch k with
+  | some v =>
+    have := updateEntry_inTxn ops u k n h
+    exact ⟨this.2.2.2.2 k' h1, this.2.1⟩
+  | none =>
+    obtain ⟨b, _, hb, hd, _, hne⟩ := updateEntryPrefixed_none ops u k n h hf
+    unfold UD.updateEntryPrefixed at hb hd
+    rw [hf] at hb hd
+    exact ⟨by rw [fetch_eq _ u b hb hd, hne k' h2], hd⟩
+
+/-- **encoder: what is stored.**  A phrase without a plain record is written under the prefixed key from a fresh value:
+its count is `n` (1 for an assembled commit, 0 for a phrase out of the commit history) whatever the prefixed key held before
+— constructed records are rewritten, never counted up.  A phrase with a plain record (it was committed as a whole before) is
+counted up there like any committed entry: `|c| + 1`, or unchanged for `n = 0`. -/
+theorem encoded_update_count (ops : DeeOps D) (u : UD D) (k : Key) (n : Int) (h : u.inTxn = true) :
+    (u.fetch k = none →
+      (u.updateEntryPrefixed ops k n).2 = k.addPrefix ∧
+      (u.updateEntryPrefixed ops k n).1.fetchCount k.addPrefix = newCount 0 n) ∧
+    (∀ v, u.fetch k = some v →
+      (u.updateEntryPrefixed ops k n).2 = k ∧
+      (u.updateEntryPrefixed ops k n).1.fetchCount k = newCount v.commits n) := by
+  constructor
+  · intro hf
+    obtain ⟨b, hk, hb, hd, hself, _⟩ := updateEntryPrefixed_none ops u k n h hf
+    refine ⟨hk, ?_⟩
+    unfold UD.fetchCount
+    rw [fetch_eq _ u b hb hd, hself]
+    exact updateValue_commits ops u.tick none n
+  · intro v hf
+    unfold UD.updateEntryPrefixed
+    rw [hf]
+    refine ⟨rfl, ?_⟩
+    have := (updateEntry_inTxn ops u k n h).2.2.2.1
+    rw [this]
+    unfold UD.fetchCount
+    rw [hf]
+
+/-- non-vacuity: on an empty dictionary, the commit of two elements `甲`(`ab`) `乙`(`c`) with the history encoder on
+raises both elements to 1 and stores the phrase under the prefixed encoded code `ac` with count 1 -/
+example :
+    let segs : List Seg := [{ status := 2, sel := some { recognized := true, entry := { text := [1], code := [[97, 98]] }, comps := none } },
+                            { status := 3, sel := some { recognized := true, entry := { text := [2], code := [[99]] }, comps := none } }]
+    let r := UD.onCommitEnc Examples.unitOps { commitHistory := true, maxPhraseLength := 3 } (fun _ => [[97, 99]])
+      [("table", [1, 2])] UD.empty segs 0
+    r.2 = [({ code := [[97, 98]], text := [1] }, 1), ({ code := [[99]], text := [2] }, 1),
+           ({ code := [encPrefix ++ [97, 99]], text := [1, 2] }, 1)] := by
+  decide
 
 /- Full statement for the table style (FALSE, see `table_sentence_rank_counterexample`):
 
